@@ -126,3 +126,14 @@ func init() {
 		}
 	}})
 }
+
+func init() {
+	register(&Property{ID: "DBGS", Patterns: []string{"./..."}, Run: func(p *Program, r *Report) {
+		r.Rule("S", "E3", 0, "swallowed errors (debug)")
+		for _, pk := range []string{"keystore/filesystem", "keystore/v2/keystore/filesystem", "keystore/v2/keystore/filesystem/backend", "keystore/v2/keystore", "cmd/acra-rotate", "cmd/acra-keys/keys", "cmd/acra-backup", "keystore/filesystem/internal"} {
+			for _, fn := range p.SrcFuncs(pk) {
+				swallowedErrors(p, r, "S", fn)
+			}
+		}
+	}})
+}
